@@ -9,7 +9,7 @@ LEAN_MODULE = 'PncProofs.C01Files'      # imports PncProofs.C01
 LEAN_FILE = 'PncProofs/C01.lean'
 MORE_LEAN_FILES = ['PncProofs/C01Files.lean']
 NAMESPACE = 'Props.C01'
-LEAN_CONE = ['PncModel.Arr', 'PncModel.File', 'PncModel.Ioapi', 'PncProofs.FiberLemmas', 'PncProofs.C03', 'PncProofs.ArrLemmas', 'PncProofs.C01',
+LEAN_CONE = ['PncModel.Arr', 'PncModel.NsStep', 'PncModel.Generated.NamespaceOrder', 'PncModel.File', 'PncModel.Ioapi', 'PncProofs.FiberLemmas', 'PncProofs.C03', 'PncProofs.ArrLemmas', 'PncProofs.C01',
              'PncProofs.C02', 'PncProofs.C04', 'PncProofs.ZipLemmas', 'PncProofs.StackLemmas', 'PncProofs.SliceLemmas', 'PncProofs.C01Files']
 LEMMA_FILES = ['PncProofs/StackLemmas.lean', 'PncProofs/SliceLemmas.lean', 'PncProofs/ZipLemmas.lean']
 REQUIRED_THEOREMS = ['build_hasShape', 'mapCells_hasShape', 'zipCells_hasShape', 'mask_wf', 'insertDim_wf',
